@@ -35,10 +35,12 @@ pub enum Kind {
     /// PTR answers of the browsed type whose instances never show any other record (ghosts): the daemon's
     /// follow-up questions go unanswered and have to stop by themselves.
     GhostPtrs,
+    /// Instances of the browsed type that share one subtype: one stays, the others are announced and withdrawn.
+    SubtypeChurn,
     Mixed,
 }
 
-fn foreign_packet(rng: &mut Rng, kind: Kind, n: u64, ttl: u32) -> Message {
+fn foreign_packet(rng: &mut Rng, kind: Kind, n: u64, ttl: u32, max_ttl: u32) -> Message {
     let mut m = Message::response();
     let k = if kind == Kind::Mixed { *rng.pick(&[Kind::ForeignType, Kind::Orphans, Kind::Nsec, Kind::BrowsedChurn, Kind::Reannounce, Kind::GhostPtrs]) } else { kind };
     match k {
@@ -89,6 +91,19 @@ fn foreign_packet(rng: &mut Rng, kind: Kind, n: u64, ttl: u32) -> Message {
         Kind::GhostPtrs => {
             let inst = wire::name(&format!("g{n}._t._udp.local"));
             m.answers.push(wire::ptr(&wire::name(BROWSED), ttl, &inst));
+        }
+        Kind::SubtypeChurn => {
+            let keeper = n % 10 == 0;
+            let guest = n / 2;
+            let mut s = if keeper { Svc::new(BROWSED, "keeper", "keeper.local", [10, 0, 4, 1]) } else { Svc::new(BROWSED, &format!("c{guest}"), &format!("ch{guest}.local"), [10, 0, 3, (guest % 250) as u8]) };
+            // (the one that stays is announced with the scenario's largest TTL again and again)
+            let ttl = if keeper { max_ttl } else { ttl };
+            s.ttl_ptr = ttl;
+            s.ttl_srv = ttl;
+            s.ttl_txt = ttl;
+            s.ttl_addr = ttl;
+            s.subtype = Some(wire::name("_y._sub._t._udp.local"));
+            m = if !keeper && n % 2 == 1 { s.goodbye() } else { s.announce() };
         }
         Kind::Mixed => unreachable!(),
     }
@@ -146,7 +161,7 @@ pub fn scenario(seed: u64, kind: Kind, volume: u64, quiesce: bool) -> Made {
     let desc = format!("{kind:?} volume={volume} packets={packets} gap={gap}ms max_ttl={max_ttl} browse={with_browse} resolver={with_resolver}({wanted}) service={with_service} unsolicited={unsolicited} quiesce={quiesce}");
     for n in 0..packets {
         let ttl = if rng.chance(1, 3) { max_ttl } else { 1 + rng.below(max_ttl as u64) as u32 };
-        let m = foreign_packet(&mut rng, kind, n, ttl);
+        let m = foreign_packet(&mut rng, kind, n, ttl, max_ttl);
         w.inject_msg(h, 2, scen::peer4(70), &m);
         // now and then the application asks for an instance it has seen to be verified (a request with a timeout,
         // short or very long, that nobody answers): it may bring the end of the records forward, never push it back
@@ -254,7 +269,7 @@ pub fn g2(made: &Made, l: &mut Local) {
     let browsed: Name = wire::name(BROWSED);
     for (t, snap) in made.checkpoints.iter() {
         l.act("G2");
-        let (records, keys, _subs) = counts(snap);
+        let (records, keys, subs) = counts(snap);
         // related live records by the model (lenient: possibly live)
         let insts: Vec<Name> = hist
             .possibly_live(*t, 1500, |id| id.rtype == wire::T_PTR && (wire::names_eq_nocase(&id.name, &browsed) || id.name.len() > browsed.len() && wire::names_eq_nocase(&id.name[id.name.len() - browsed.len()..], &browsed)))
@@ -302,6 +317,18 @@ pub fn g2(made: &Made, l: &mut Local) {
                 .with(json!({"scenario": made.desc,
                              "cache_summary": snap.cache.iter().map(|c| format!("{}: keys={} empty_keys={} records={}", c.map, c.keys, c.empty_keys, c.records)).collect::<Vec<_>>(),
                              "examples": snap.cache_records.iter().take(10).map(|r| format!("{} {}", r.map, r.name)).collect::<Vec<_>>()})),
+            );
+            return;
+        }
+        // the instance -> subtype map: one entry for each instance whose subtype PTR may still be alive
+        l.act("G2-subtypes");
+        let sub_related = hist
+            .possibly_live(*t, 1500, |id| id.rtype == wire::T_PTR && id.name.len() > browsed.len() && wire::names_eq_nocase(&id.name[id.name.len() - browsed.len()..], &browsed))
+            .count();
+        if subs > 2 * sub_related + 8 {
+            l.violate(
+                Violation::new("G2", "G2/unrelated-state-cached/subtype-entries-of-departed-instances", format!("at +{} ms the subtype map holds {subs} entries; {sub_related} instances with a subtype may still be alive", t - EPOCH))
+                    .with(json!({"scenario": made.desc})),
             );
             return;
         }
@@ -433,11 +460,11 @@ pub fn probing_flood(seed: u64, l: &mut Local) {
     }
 }
 
-const KINDS: [Kind; 7] = [Kind::ForeignType, Kind::Orphans, Kind::Nsec, Kind::BrowsedChurn, Kind::Reannounce, Kind::GhostPtrs, Kind::Mixed];
+const KINDS: [Kind; 8] = [Kind::ForeignType, Kind::Orphans, Kind::Nsec, Kind::BrowsedChurn, Kind::Reannounce, Kind::GhostPtrs, Kind::SubtypeChurn, Kind::Mixed];
 
 pub fn run_one(seed: u64, i: u64, l: &mut Local) {
-    let kind = KINDS[(i % 6) as usize];
-    match (i / 6) % 3 {
+    let kind = KINDS[(i % 8) as usize];
+    match (i / 8) % 3 {
         0 => {
             let made = scenario(seed, kind, 1, true);
             l.evaluations += 1;
